@@ -549,6 +549,14 @@ class Interp:
             owner = fn.__self__
             safe = {"append", "extend", "insert", "clear", "copy", "reverse", "items", "keys", "values"} if isinstance(owner, list) else {"items", "keys", "values", "clear", "copy"}
             keyed = isinstance(owner, dict) and fn.__name__ in ("setdefault", "get") and args and isinstance(args[0], (str, int, tuple)) and not contains_symbolic([args[0]])
+            if fn.__name__ == "remove" and isinstance(owner, list) and len(args) == 1 and contains_symbolic(list(args)):
+                # list.remove of a symbolic element: decided only when the very object is an element (identity); equality of two
+                # different symbolic values is not decided here
+                for i, x in enumerate(owner):
+                    if x is args[0]:
+                        del owner[i]
+                        return None
+                self.outside("list.remove of a symbolic value that is not (identically) an element", node)
             if fn.__name__ in safe or keyed or (fn.__name__ == "pop" and isinstance(owner, list) and not contains_symbolic(list(args))):
                 try:
                     return fn(*args, **kwargs)
